@@ -116,6 +116,10 @@ def settings(s, rec0):
             chains.append(a.chain)
     if len(chains) > 1:
         out.append(('chain-first', ('-c', chains[0])))
+        out.append(('chain-first-twice', ('-c', chains[0], '-c', chains[0])))
+        out.append(('chains-reversed', ('-c', chains[1], '-c', chains[0])))
+    if chains and ' ' not in chains:
+        out.append(('blank-chain-selected', ('-c', ' ')))      # run on a copy whose first chain has a blank identifier
     rep = []
     for g in rec0['confs'][rec0['conformations'][0]]['groups']:
         if g['use']:
@@ -136,7 +140,7 @@ def plan(tier, seed):
     return dict(shards=shards, exhaustive=True,
                 rule=('inputs: docked pairs (6x10 kinds), clusters, 9 A cut-outs, windows starting with ASP/HIS/CYS, MTX/KNI cut-outs, a free '
                       'amino acid, MODEL/alt-loc layouts (partner chain present in all / later models only); settings: default, -d, first '
-                      'chain, two titrate-only lists; parameter files: all 8 toggles of %s under the default setting plus -d. non-trivial '
+                      'chain (once, twice, chains in reverse order, blank chain id selected with a space), two titrate-only lists; parameter files: all 8 toggles of %s under the default setting plus -d. non-trivial '
                       '= distinct (input, setting, parameter file) whose result has at least one determinant') % (TOGGLES,),
                 bounds=dict(inputs=len(ins), parameter_files=8), samples=[ins[0], ins[-1]])
 
@@ -236,7 +240,15 @@ def run_case(case, ctx, acc):
             written[bits] = path
         o = tuple(opts) + (() if bits == (1, 0, 0) else ('-p', written[bits]))
         sub = dict(case, setting=sname, cfg=list(bits))
-        mol = pk.run(text, o, write=True)
+        if sname == 'blank-chain-selected':
+            first = [a.chain for a in s.atoms if a.chain != 'Z'][0]
+            s2 = s.copy()
+            for a in s2.atoms:
+                if a.chain == first:
+                    a.chain = ' '
+            mol = pk.run(gen.to_text(s2), o, write=True)
+        else:
+            mol = pk.run(text, o, write=True)
         rec = pk.record(mol)
         nt = any(any(g['dets'][t] for t in g['dets']) for g in rec['confs']['AVR']['groups'])
         acc.case(nontrivial_key=jhash(sub) if nt else None, outcome='%s/%d%d%d' % ((sname,) + tuple(bits)))
@@ -250,4 +262,4 @@ def run_case(case, ctx, acc):
             ck = '%s/%s/%s%s' % (ck, sname, tag, '/' + '+'.join(feats) if feats else '')
             if ck not in seen:
                 seen.add(ck)
-                acc.viols.append(Viol(sub, 'sum+text', ck, what, inputs=dict(pdb=text, opts=list(opts), cfg_toggles=dict(zip(TOGGLES, bits)))))
+                acc.viols.append(Viol(sub, 'sum+text', ck, what, inputs=dict(pdb=text if sname != 'blank-chain-selected' else gen.to_text(s2), opts=list(opts), cfg_toggles=dict(zip(TOGGLES, bits)))))
